@@ -20,6 +20,7 @@ EXTRA = {"R3-C05-1": ["C05", "C03"], "R3-C05-2": ["C05", "C03", "C02"], "R3-C07-
          "R5-C07-1": ["C07", "C17"], "R5-C07-2": ["C07", "C01"], "R5-C10-1": ["C10", "C06"], "R5-C10-2": ["C10", "C11"], "R5-C11-1": ["C11", "C05"], "R5-C11-2": ["C11", "C09", "C12"],
          "R5-C12-2": ["C12", "C04"], "R5-C14-2": ["C14", "C04"], "R5-C16-2": ["C16", "C20"], "R5-C09-2": ["C09", "C08"], "R5-C19-1": ["C19", "C17"],
          "R6-C03-1": ["C03", "C13"], "R6-C06-1": ["C06", "C01"], "R6-C09-1": ["C09", "C08"], "R6-C12-1": ["C12", "C13"], "R6-C14-1": ["C14", "C04"], "R6-C16-1": ["C16", "C20"], "R6-C05-1": ["C05", "C11"],
+         "R7-C02-1": ["C02", "C01"], "R7-C07-1": ["C07", "C06"], "R7-C15-1": ["C15", "C06"], "R7-C06-1": ["C06", "C02"], "R7-C09-1": ["C09", "C12"],
          "revert-D1": ["C01"], "revert-D2": ["C13", "C12"], "revert-D3": ["C04"], "revert-D4": ["C03", "C12"], "revert-D5": ["C09"]}
 
 
